@@ -20,6 +20,7 @@ struct SolReadConfig {
   int options_rv = 0;                       // return value of OnAMPLOptions
   bool c_party = false;                     // the handler is a C callback table behind the library's NLW2_SOLHandler_C_Impl wrapper
   bool easy_party = false;                  // the handler is the library's own SOLHandler_Easy: NLSolver::ReadSolution() for an NLModel of the declared size
+  std::vector<int> easy_types;              // column classes of that model (0 continuous, 1 binary, 2 integer); empty: integer / continuous alternating
 };
 
 struct VecRec {
@@ -47,6 +48,10 @@ struct SolReadResult {
   std::vector<VecRec> vecs;
   std::string viol_class, viol_key, viol_detail;
   uint64_t hash = 0;
+  // easy party: the suffixes of the returned NLSolution (dense, the caller's order) and the writer's column permutation
+  struct EasySuf { std::string name, table; int kind = 0; std::vector<double> values; };
+  std::vector<EasySuf> easy_sufs;
+  std::vector<int> easy_vperm;              // caller's column j is written at NL position easy_vperm[j]
 };
 
 SolReadResult read_sol(const std::string& path, const SolReadConfig& cfg);
